@@ -129,7 +129,7 @@ impl Prop for C16 {
 
     fn strategy(_leg: &str, tier: Tier) -> BoxedStrategy<Case> {
         (
-            gen::digraph_labeled_big(tier.pick(24, 70)).prop_map(|(g, _)| g),
+            gen::digraph_labeled_big(tier.pick(40, 70)).prop_map(|(g, _)| g),
             vec(0..4_u8, 2..=5),
             any::<u8>(),
             any::<u8>(),
